@@ -85,6 +85,9 @@ def actions(sysm):
   mdn = len(st['md']) + sum(len(t['md']) for t in ts)
   for delta in ([(None, '', 'k', 'v')], [(ids[0] if ids else 9, '', 'k', 'v')], [(None, '', 'k', 'w'), (9, '', 'k', 'v')]):
     A(('UpdateMetadata', 's', tuple(delta)))
+  if ids:
+    # one update for the study and for every existing trial (several rows written by one call)
+    A(('UpdateMetadata', 's', tuple([(None, '', 'k2', 'u')] + [(i, '', 'k2', 'u') for i in ids])))
   if cfg.get('switch'):
     A(('Switch',))      # the next calls go to the other of two live server objects on the same stored data
   return acts
@@ -92,6 +95,7 @@ def actions(sysm):
 
 # two live servers A and B on one SQLite file: B has served (and may remember) the study, then A writes, then B serves again
 _S1 = [('CreateStudy', 's'), ('SuggestTrials', 's', 'a', 1), ('Switch',), ('ListTrials', 's'), ('GetStudy', 's'), ('GetTrial', 's', 1), ('Switch',)]
+AFTER_DELETE_START = [('CreateStudy', 's'), ('CreateTrial', 's', 'requested', 0.25), ('SuggestTrials', 's', 'a', 2), ('ListTrials', 's'), ('SetStudyState', 's', 'INACTIVE'), ('DeleteStudy', 's')]
 TWO_SERVER_STARTS = [_S1,
                      _S1 + [('CompleteTrial', 's', 1, 'final'), ('Switch',)],
                      _S1 + [('UpdateMetadata', 's', ((None, '', 'k', 'v'), (1, '', 'k', 'v'))), ('AddTrialMeasurement', 's', 1, 0.5), ('Switch',)],
@@ -142,6 +146,9 @@ def large_shard(task):
 def run(ctx):
   if ctx.quick:
     plans = [({'backends': ['ram'], 'max_trials': 2, 'max_meas': 1, 'max_ops': 2, 'max_id': 3, 'modes': ('final', 'none', 'infeasible', 'infeasible+final')}, 5),
+             # "used, then deleted": same stored data as "never existed" (merged by the BFS), but a server may remember
+             ({'backends': ['sqlmem'], 'fresh_backends': True, 'max_trials': 2, 'max_meas': 1, 'max_ops': 2, 'max_id': 3, 'starts': [AFTER_DELETE_START, AFTER_DELETE_START[:2] + AFTER_DELETE_START[-1:]]}, 0),
+             ({'backends': ['ram'], 'fresh_backends': True, 'max_trials': 2, 'max_meas': 1, 'max_ops': 2, 'max_id': 3, 'starts': [AFTER_DELETE_START, AFTER_DELETE_START[:2] + AFTER_DELETE_START[-1:]]}, 0),
              ({'backends': ['sqlmem'], 'max_trials': 2, 'max_meas': 1, 'max_ops': 2, 'max_id': 3}, 3),
              # several studies at once (same id under two owners, ids differing by a LIKE wildcard): reduced alphabet, against the model
              ({'backends': ['sqlmem'], 'multi': True, 'studies': ('s_1', 'sx1', 'p@s_1'), 'max_trials': 1, 'max_id': 2, 'clients': ('a',)}, 5),
